@@ -111,6 +111,10 @@ class C08Stream(R.ScenarioStream):
         out = [f"period={p}", f"age={case['age'][0] / case['age'][1]}", f"init_len={case['init_len']}"]
         if case["max_len"] < 1024:
             out.append("small_max_len")
+        if case.get("sample_tz"):
+            out.append("samples_stamped_in_DST_zone")
+            if any(case["start"] < x < case["start"] + case["duration"] for x in R.DST_ZONES[case["sample_tz"]]):
+                out.append("run_crosses_DST_transition")
         an, ad = case["age"]
         for sid in range(len(case["series"])):
             h = R.series_history(case, log, sid)
@@ -166,6 +170,8 @@ ASSUMPTIONS = [
     "the update guard's float comparison `received < period_s * max_age` decides like the exact rational comparison "
     "(checked by the generator for every generated configuration)",
     "samples reach the helper in the order the source yields them (asyncio task per source)",
+    "timestamps are modelled as UTC instants; sample stamps (and align_to) are also given in DST-observing zoneinfo zones "
+    "across transitions and every recorded timestamp is compared as a UTC instant",
 ]
 
 META = {
